@@ -176,3 +176,29 @@ def unit_quaternion_integer_powers(env, cfg, ck):
         ck.true('multi:len', len(PM) == 2)
         ck.eq('multi:0', PM.data[0], spec(q))
         ck.eq('multi:1', PM.data[1], spec(p))
+
+
+@contract('C02', targets=['spatialmath.twist.Twist3.__mul__', 'spatialmath.twist.Twist3.inv', 'spatialmath.twist.Twist3.exp', 'spatialmath.base.transforms3d.trlog'],
+          configs=[{'axis': a, 'angle': 'pi'} for a in ('1,-2,2', '2,3,-6')], domain=False)
+def twist_group_laws(env, cfg, ck):
+    """Twist3 composes through exp and log: identity, inverse and associativity hold as rigid motions (compared as
+    matrices, since the logarithm of a half turn is only defined up to the sign of the axis) - in particular at the
+    closed end of the angle range, a rotation by exactly pi about an axis whose components differ in sign"""
+    np, sm = env.np, env.sm
+    a = [int(x) for x in cfg['axis'].split(',')]
+    import math
+    n = math.isqrt(sum(x * x for x in a))
+    u = [env.const('%d/%d' % (x, n)) for x in a]
+    th = env.pi if cfg['angle'] == 'pi' else env.const('7/5')
+    v = [env.const('1/2'), env.const('-3/2'), env.const('2')]
+    X = sm.Twist3(np.array(v + [th * x for x in u]))
+    Y = sm.Twist3(np.array([env.const('1/4'), env.const('1'), env.const('-1/2'), env.const('3/10'), 0, env.const('-2/5')]))
+    E = sm.Twist3()
+    TX, TY = ck.call(lambda: X.exp().A), ck.call(lambda: Y.exp().A)
+    mot = lambda tw: tw.exp().A
+    ck.eq('right-identity', ck.call(lambda: mot(X * E)), TX, tol=1e-6, scale=10)
+    ck.eq('left-identity', ck.call(lambda: mot(E * X)), TX, tol=1e-6, scale=10)
+    ck.eq('product', ck.call(lambda: mot(X * Y)), TX @ TY, tol=1e-6, scale=100)
+    ck.eq('inverse', ck.call(lambda: mot(X * X.inv())), np.eye(4), tol=1e-6, scale=100)
+    ck.eq('inverse-of-product', ck.call(lambda: mot((X * Y).inv())), ck.call(lambda: mot(Y.inv() * X.inv())), tol=1e-6, scale=100)
+    ck.eq('associative', ck.call(lambda: mot((X * Y) * X)), ck.call(lambda: mot(X * (Y * X))), tol=1e-6, scale=1000)
